@@ -503,7 +503,7 @@ fn shape_strategy(max_k: u16) -> impl Strategy<Value = ShapeSpec> {
             Just(BadShape::OtherG),
             Just(BadShape::Control),
         ],
-        prop_oneof![6 => 1u16..=6, 2 => 250u16..=260, 1 => 505u16..=max_k],
+        prop_oneof![6 => 1u16..=6, 1 => 250u16..=260, 3 => prop::sample::select(vec![255u16, 256, 257, 258]), 1 => 505u16..=max_k, 2 => prop::sample::select(vec![511u16, 512, 513])],
         prop_oneof![
             Just(PosSpec::First),
             Just(PosSpec::Last),
